@@ -88,7 +88,7 @@ def run(ctx):
                 os.remove(q)
 
 
-ACTIONS = ["clamped", "is_between", "wrapped", "wrapped_between", "pingpong", "delta_angle_degrees", "delta_angle", "in_range"]
+ACTIONS = ["clamped", "is_between", "wrapped", "wrapped_between", "pingpong", "delta_angle_degrees", "delta_angle", "in_range", "wrap_2pi"]
 
 
 def float_traces(ctx):
